@@ -93,7 +93,7 @@ def rand_rate(r):
 
 def gen_cases(rng, tier):
     items = []
-    nruns = 300 if tier == "quick" else 2000
+    nruns = 300 if tier == "quick" else 1200
     frames = lambda r: r.choice([20, 50, 80, 100, 100, 120]) if tier == "quick" else r.choice([50, 100, 100, 150, 200])
     fixed_rates = [1e-3, 1.0, 44100.0, 1e9]
     for k in range(nruns):
@@ -265,6 +265,29 @@ def shrink(binpath, it):
     return build(c)
 
 
+def correspond_retry(binpath, items, tag, retries=2):
+    """F.correspond, re-running (up to `retries` times) only the coqc shards that died without a verdict
+    (e.g. killed under memory pressure); a shard that keeps failing is still reported as an error."""
+    import time as _t
+    outl, bad, errors = F.correspond(binpath, items, HEADER, CHECK, tag)
+    for attempt in range(retries):
+        shard_errs = [e for e in errors if e[0].startswith("cases_")]
+        if not shard_errs or len(shard_errs) != len(errors):
+            break
+        n = len(items)
+        nfiles = max(1, min(max(F.NCPU, (n + 399) // 400), n))
+        step = (n + nfiles - 1) // nfiles
+        idxs = []
+        for name, _ in shard_errs:
+            k = int(name.split("_")[1])
+            idxs += list(range(k, min(n, k + step)))
+        _t.sleep(5)
+        o2, b2, e2 = F.correspond(binpath, [items[i] for i in idxs], HEADER, CHECK, f"{tag}_retry{attempt}")
+        bad = sorted(set(bad) | {idxs[j] for j in b2})
+        errors = e2
+    return outl, bad, errors
+
+
 CASE_KEYS = ("kind", "rate", "mode", "n", "hz", "seed", "c", "pat", "rate_cls")
 
 
@@ -273,6 +296,26 @@ def regenerate():
     import simplex_table
     txt = simplex_table.generate(F.REPO)
     F.write_if_changed(os.path.join(F.COQ, "gen", "SimplexTable.v"), txt)
+
+
+def proof_phase(rep):
+    """F.standard_proof_phase, repeated (at most 3 times) only when coqc was killed by the OS (exit 137, memory
+    pressure from other jobs) — a proof that fails to check for any other reason is reported at once."""
+    import time as _t
+    for attempt in range(3):
+        tmp = F.Report(PROP, rep.tier, rep.seed)
+        info = F.standard_proof_phase(tmp, PROP, allowed_axioms=F.AX_REALS)
+        killed = False
+        if not info.get("coq_ok"):
+            try:
+                j = json.load(open(os.path.join(tmp.replay_dir, f"{PROP}_proof_broken.json")))
+                killed = "Error 137" in j.get("log_tail", "") or "Killed" in j.get("log_tail", "")
+            except Exception:
+                killed = False
+        if not killed or attempt == 2:
+            rep.violations += tmp.violations
+            return info
+        _t.sleep(15)
 
 
 def load_corpus():
@@ -291,13 +334,15 @@ def main(rep, tier, seed):
         regenerate()
     except SystemExit as e:
         rep.violation("translator", {"kind": "model cannot be regenerated from the source", "error": str(e)}, no_input=True)
-    info = F.standard_proof_phase(rep, PROP, allowed_axioms=F.AX_REALS)
+    info = proof_phase(rep)
     ok, blog, binpath = F.harness_build("c17")
     if not ok:
         rep.violation("harness_build", {"kind": "harness does not build against /repo", "log": blog[-4000:]}, no_input=True)
         return finish(rep, info, 0, 0, {}, [], extra={})
     # float base sub-check
     fb_n, fb_bad, fb_err = floatbase.run(rng.fork("floatbase"), 600 if tier == "quick" else 3000)
+    if fb_err:  # one retry: a coqc shard can die under memory pressure without a verdict
+        fb_n, fb_bad, fb_err = floatbase.run(rng.fork("floatbase"), 600 if tier == "quick" else 3000)
     for name, msg in fb_err:
         rep.violation("floatbase_error", {"kind": "float base validation could not be evaluated", "where": name, "log": msg}, no_input=True)
     for c, o in fb_bad[:3]:
@@ -305,7 +350,7 @@ def main(rep, tier, seed):
     corpus = load_corpus()
     items, n_osc = gen_cases(rng, tier)
     items = corpus + items
-    outl, bad, errors = F.correspond(binpath, items, HEADER, CHECK, "c17")
+    outl, bad, errors = correspond_retry(binpath, items, "c17")
     for name, msg in errors:
         rep.violation("correspondence_error_" + name.replace("/", "_"),
                       {"kind": "correspondence could not be evaluated", "where": name, "log": msg}, no_input=True)
@@ -409,4 +454,7 @@ def replay(path):
     vf = verdict(it, out[0]) if out else ["no output"]
     print("verdict failures:", vf)
     print("AGREE" if not bad and not errs else "DISAGREE")
-    return 1 if bad or errs or (vf and not it.get("k1")) else 0
+    listed = K1_CLASS in {e.get("class") for e in F.known_findings(PROP) if e.get("kind") == "known"}
+    if vf and it.get("k1"):
+        print("input is in known class K1 (a step is not finite);", "listed in KNOWN_FINDINGS.json" if listed else "NOT listed -> violation")
+    return 1 if bad or errs or (vf and not (it.get("k1") and listed)) else 0
